@@ -505,4 +505,4 @@ UNITS.append(uq_dtor)
 # the unbounded queue's units underlie C03 / C08 as a whole (same reason as in units/bq.py)
 for u_ in UNITS:
     if u_['name'] in ('UQ.handle_full', 'UQ.prepare_write', 'UQ.read_next', 'UQ.prepare_read', 'UQ.empty', 'UQ.finish_write', 'UQ.commit_write', 'UQ.finish_read', 'UQ.commit_read'):
-        u_['underlies'] = {'C03', 'C08'}
+        u_['underlies'] = {'C03', 'C08', 'C06', 'C07', 'C20'}   # C20: 'shrinking loses nothing' is the consumer's switch between buffers (seed C20-B5)
